@@ -108,30 +108,70 @@ func runC13(c *Ctx) {
 
 	// ---------- R2 ----------
 	reqT := c.P.Type("rules", "Request")
-	var poolGet *ssa.Function
-	if mr := c.P.Method("", "DNSEngine", "MatchRequest"); mr != nil {
-		eachInstrG(c.P, mr, func(_ *ssa.BasicBlock, in ssa.Instruction) {
-			if ci, ok := in.(ssa.CallInstruction); ok {
-				if cal := ci.Common().StaticCallee(); cal != nil && c.P.IsLibFunc(cal) && !c.P.IsNewHelper(cal) && cal.Signature.Results().Len() == 1 && typeStr(cal.Signature.Results().At(0).Type()) == "*rules.Request" {
-					poolGet = cal
-				}
-			}
-		})
-	}
-	if reqT == nil || poolGet == nil {
-		c.Fail("C13.R2", "anchor:pool refill", token.NoPos, "unresolved anchor: DNSEngine.MatchRequest calls no function returning *rules.Request")
+	// The pooled request of a DNS query: evaluated from MatchRequest with the refill code
+	// expanded (a helper returning the request, or Get in place followed by a fill function).
+	mrq := c.P.Method("", "DNSEngine", "MatchRequest")
+	if reqT == nil || mrq == nil {
+		c.Fail("C13.R2", "anchor:pool refill", token.NoPos, "unresolved anchor: DNSEngine.MatchRequest / rules.Request")
 	} else {
 		g := NewGate(c.P)
 		g.Inline = func(_, callee *ssa.Function, depth int) bool {
-			// the fill helper(s) the refill delegates to
-			return depth <= 2 && callee.Signature.Params().Len() >= 1 && typeStr(callee.Signature.Params().At(0).Type()) == "*rules.Request"
+			if depth > 3 {
+				return false
+			}
+			sig := callee.Signature
+			// the refill helper(s): return the request, or take it as (first) parameter / receiver
+			if sig.Results().Len() == 1 && typeStr(sig.Results().At(0).Type()) == "*rules.Request" {
+				return true
+			}
+			// ... and writes its fields (a fill function), unlike the matchers that only read it
+			for i, p := range callee.Params {
+				if typeStr(p.Type()) != "*rules.Request" {
+					continue
+				}
+				_ = i
+				writes := false
+				eachInstr(callee, func(_ *ssa.BasicBlock, in ssa.Instruction) {
+					if st, ok := in.(*ssa.Store); ok {
+						if fa, ok := st.Addr.(*ssa.FieldAddr); ok && fa.X == ssa.Value(p) {
+							writes = true
+						}
+					}
+					if ci, ok := in.(ssa.CallInstruction); ok {
+						// hands the request on to another fill function
+						for _, a := range ci.Common().Args {
+							if a == ssa.Value(p) {
+								if cal := ci.Common().StaticCallee(); cal != nil && c.P.IsLibFunc(cal) && strings.Contains(cal.Name(), "Fill") {
+									writes = true
+								}
+							}
+						}
+					}
+				})
+				if writes {
+					return true
+				}
+			}
+			return false
 		}
-		s := g.Eval(poolGet)
+		s := g.Eval(mrq)
 		u := g.U
 		c.Fn(sortedKeys(g.Funcs)...)
-		req := g.RetExpr(s, 0)
+		// the request is what the network engine is queried with
+		var req *E
+		useIdx := len(s.Effects)
+		for i, ef := range s.Effects {
+			if ef.Kind == "call" && strings.HasSuffix(ef.Call.Aux, "NetworkEngine).MatchAll") && len(ef.Call.Args) >= 2 {
+				req = ef.Call.Args[1]
+				useIdx = i
+				break
+			}
+		}
 		stored := map[string]Ref{}
-		for _, ef := range s.Effects {
+		for i, ef := range s.Effects {
+			if i >= useIdx || req == nil {
+				break
+			}
 			if ef.Kind == "store" && ef.Addr.Op == "faddr" && ef.Addr.Args[0] == req {
 				stored[ef.Addr.Aux] = u.bdd.Or(stored[ef.Addr.Aux], ef.Cond)
 			}
@@ -140,6 +180,16 @@ func runC13(c *Ctx) {
 				for _, f := range structFields(reqT) {
 					stored[f] = u.bdd.Or(stored[f], ef.Cond)
 				}
+			}
+		}
+		// conditions are relative to the point where the request is used
+		useCond := True
+		if useIdx < len(s.Effects) {
+			useCond = s.Effects[useIdx].Cond
+		}
+		for f, cnd := range stored {
+			if u.bdd.Implies(useCond, cnd) {
+				stored[f] = True
 			}
 		}
 		isPool := req != nil && req.Op == "call" && strings.Contains(req.Aux, "Pool") && strings.HasSuffix(strings.TrimSuffix(req.Aux, ")"), ".Get") || (req != nil && strings.Contains(req.key, ".Get"))
@@ -153,11 +203,11 @@ func runC13(c *Ctx) {
 			key := "pooled request: field Request." + f + " is reset for every query"
 			switch {
 			case !ok:
-				c.Fail("C13.R2", key, poolGet.Pos(), "the field is never stored between pool.Get and the first use: the value of the previous query (another client, another request) leaks into this one")
+				c.Fail("C13.R2", key, mrq.Pos(), "the field is never stored between pool.Get and the first use: the value of the previous query (another client, another request) leaks into this one")
 			case cnd != True:
-				c.Fail("C13.R2", key, poolGet.Pos(), "the field is stored only when "+clip(u.ShowBool(cnd), 160)+": otherwise the value of the previous query leaks into this one")
+				c.Fail("C13.R2", key, mrq.Pos(), "the field is stored only when "+clip(u.ShowBool(cnd), 160)+": otherwise the value of the previous query leaks into this one")
 			default:
-				c.OK("C13.R2", key, poolGet.Pos(), "stored unconditionally")
+				c.OK("C13.R2", key, mrq.Pos(), "stored unconditionally")
 			}
 		}
 	}
